@@ -14,7 +14,8 @@ for m in muts:
     if m['expect'] == 'skip': continue
     d = tempfile.mkdtemp(prefix='govc-selftest-')
     try:
-        subprocess.run(['rsync','-a','--exclude','.git','/repo/', d+'/repo/'], check=True)
+        os.makedirs(d+'/repo')
+        subprocess.run('git -C /repo archive HEAD | tar -x -C %s/repo' % d, shell=True, check=True)  # the committed tree (independent of patches being tried on /repo)
         p = os.path.join(d,'repo',m['file'])
         s = open(p).read()
         if m['old'] not in s:
